@@ -13,10 +13,10 @@ pub fn prop() -> Prop {
     Prop {
         id: "C04",
         level: "model_checking",
-        rule: "depth 1: every one of the 108 pure functions on every argument tuple within its arity (variadic: 2 and 3 arguments) over 37 atoms of all types (absent; 0 1 2 3 4 -1 1.5 -0.5 2^53; empty, ASCII, non-ASCII, numeric-looking and JSON-looking strings; empty, singleton, sorted/unsorted, nested and mixed lists; empty and 1..3-member objects) plus per-function atoms (patterns, formats, instants, base64, environment names, decimal strings) and, for functional arguments, 12 bodies; the same atoms arriving as the input, a member, an element, a variable, a macro and a selected name; depth 2: every function with one argument replaced by every function applied to its documented well-typed arguments; depth 3..5: every nesting of <=3 (thorough <=4) context constructors (map, filter, flat_map, fold, sort_by, map_values, group_by, pipe, set, define over 6 sources) around 8 leaves reading ., ^, ^^, :x, @m; non-trivial = the reference result is a value; distinct by construction",
+        rule: "depth 1: every one of the 108 pure functions on every argument tuple within its arity (variadic: 2 and 3 arguments) over 39 atoms of all types (absent; 0 1 2 3 4 -1 1.5 -0.5 2^53 -2^63 2^64-1; empty, ASCII, non-ASCII, numeric-looking and JSON-looking strings; empty, singleton, sorted/unsorted, nested and mixed lists; empty and 1..3-member objects) plus per-function atoms (patterns, formats, instants, base64, environment names, decimal strings) and, for functional arguments, 12 bodies; the same atoms arriving as the input, a member, an element, a variable, a macro and a selected name; depth 2: every function with one argument replaced by every function applied to its documented well-typed arguments; depth 3..5: every nesting of <=3 (thorough <=4) context constructors (map, filter, flat_map, fold, sort_by, map_values, group_by, pipe, set, define over 6 sources) around 8 leaves reading ., ^, ^^, :x, @m; size thresholds: 45..65 string, list and object functions on strings (multi-byte character at either end), lists and objects of 15..1025 characters / items with counts around the size; non-trivial = the reference result is a value; distinct by construction",
         explanation: "each expression is one --select run on a one-value input; the value of the selection (or its absence) is compared with the reference evaluator written from the function documentation (self-checked against every documented example before the run); cases the documentation leaves open are executed but not compared",
         assumptions: COMMON_ASSUMPTIONS.to_vec(),
-        guards: vec!["n-equals-zero", "n-equals-size", "n-beyond-size", "non-ascii-string-argument", "absent-argument", "ill-typed-first-argument", "integral-result-from-fractions", "parent-read-under-two-context-constructors", "documentation-examples-agree-with-the-reference"],
+        guards: vec!["long-string-or-list", "n-equals-zero", "n-equals-size", "n-beyond-size", "non-ascii-string-argument", "absent-argument", "ill-typed-first-argument", "integral-result-from-fractions", "parent-read-under-two-context-constructors", "documentation-examples-agree-with-the-reference"],
         budget_s: (150, 3000),
         single_worker: false,
         run,
@@ -24,8 +24,8 @@ pub fn prop() -> Prop {
     }
 }
 
-const ATOMS: [&str; 37] = [
-    ".nokey", "null", "true", "false", "0", "1", "2", "3", "4", "-1", "1.5", "-0.5", "9007199254740992", "\"\"", "\"a\"", "\"ab\"", "\"é\"", "\"aé😃\"", "\"12\"", "\"1e3\"",
+const ATOMS: [&str; 39] = [
+    ".nokey", "null", "true", "false", "0", "1", "2", "3", "4", "-1", "1.5", "-0.5", "9007199254740992", "-9223372036854775808", "18446744073709551615", "\"\"", "\"a\"", "\"ab\"", "\"é\"", "\"aé😃\"", "\"12\"", "\"1e3\"",
     "\"a,b\"", "\"[1]\"", "[]", "[1]", "[1, 2, 3]", "[3, 1, 2]", "[\"a\", \"b\"]", "[[1], [2]]", "[1, \"a\", null]", "[true, false]", "{}", "{\"a\": 1}", "{\"a\": 1, \"b\": 2, \"c\": 3}",
     "{\"b\": 2, \"a\": 1}", "[\"b\", \"a\", \"b\"]", "{\"k\": \"é\", \"l\": [1, 2]}", "[\"\", \"a\", \"\"]",
 ];
@@ -383,6 +383,56 @@ fn context_grammar(ctx: &mut Ctx) {
     ctx.level_done(&format!("depth3-5:every-nesting-of-<={depth}-context-constructors"));
 }
 
+/// size thresholds: string and collection functions on inputs of 15..1025 characters / items with a
+/// multi-byte character at either end, and counts around the size
+fn long_inputs(ctx: &mut Ctx) {
+    const SIZES: [usize; 15] = [15, 16, 17, 31, 32, 33, 63, 64, 65, 127, 128, 129, 1023, 1024, 1025];
+    for n in SIZES {
+        if !ctx.mine() {
+            continue;
+        }
+        ctx.guard("long-string-or-list");
+        let body = "a".repeat(n - 1);
+        let strings = [format!("{body}\u{e9}"), format!("\u{1f603}{body}"), "ab".repeat(n / 2 + 1)[..n].to_string()];
+        let list: Vec<String> = (0..n).map(|i| ((i * 7) % n + i % 3).to_string()).collect();
+        let list_txt = format!("[{}]", list.join(", "));
+        let obj_txt = format!("{{{}}}", (0..n).map(|i| format!("\"k{}\": {}", n - 1 - i, i)).collect::<Vec<_>>().join(", "));
+        let counts: Vec<usize> = vec![0, 1, n - 1, n, n + 1, 31, 32, 33];
+        let recs_txt = format!("[{}]", (0..n).map(|i| format!("{{\"k\": {}, \"id\": {i}}}", (i * 3 + i / 4) % 5)).collect::<Vec<_>>().join(", "));
+        for (ii, input) in strings.iter().map(|s| format!("\"{s}\"")).chain([list_txt.clone(), obj_txt.clone(), recs_txt.clone()]).enumerate() {
+            let v = json::parse_str(&input);
+            let setup = Setup { args: vec![], input: input.clone(), env: Env::of(v) };
+            let mut exprs: Vec<String> = vec!["(size .)".into(), "(stringify .)".into(), "(= . .)".into(), "(parse (stringify .))".into(), "(default .nokey .)".into()];
+            for c in &counts {
+                for f in ["take", "take_last"] {
+                    exprs.push(format!("({f} . {c})"));
+                }
+                for c2 in [0usize, 1, n] {
+                    exprs.push(format!("(sub . {c} {c2})"));
+                }
+                if ii < 3 {
+                    exprs.push(format!("(head . {c})"));
+                    exprs.push(format!("(tail . {c})"));
+                }
+            }
+            if ii < 3 {
+                exprs.extend(["(concat . .)", "(split . \"a\")", "(split . \"\u{e9}\")", "(match . \"a+.$\")", "(extract_regex_group . \"^(.)(a*)\" 2)", "(join (push [] . .) .)", "(< . (concat . \"a\"))", "(len (concat . . .))", "(base63_decode .)", "(put {} . 1)", "(get (put {} . 1) .)"].iter().map(|s| s.to_string()));
+            } else if ii == 3 {
+                exprs.extend(["(sort .)", "(sort_unique .)", "(reverese .)", "(first .)", "(last .)", "(pop .)", "(pop_first .)", "(sum .)", "(map . (+ . 1))", "(filter . (> . 30))", "(sort_by . (- .))", "(indexed .)", "(fold . 0 (+ .so_far .value))", "(group_by . (stringify (% . 3)))", "(zip . .)", "(push . 1 2)", "(push_front . 1 2)", "(join (map . (stringify .)))", "(flat_map . (push [] . .))", "(all (map . (number? .)))"].iter().map(|s| s.to_string()));
+            } else if ii == 5 {
+                exprs = ["(sort_by . .k)", "(sort_by . (- .k))", "(group_by . (stringify .k))", "(filter . (= .k 1))", "(map . .id)", "(sort_by (reverese .) .k)", "(sort_by . .nokey)", "(take (sort_by . .k) 3)", "(flat_map . (push [] .id))"].iter().map(|s| s.to_string()).collect();
+            } else {
+                exprs.extend(["(keys .)", "(values .)", "(entries .)", "(sort_by_keys .)", "(sort_by_values .)", "(filter_values . (> . 30))", "(filter_keys . (= (len .) 2))", "(map_values . (+ . 1))", "(map_keys . (concat . \"x\"))", "(put . \"k0\" -1)", "(put . \"new\" -1)", "(insert_if_absent . \"k1\" -1)", "(replace_if_exists . \"k1\" -1)", "(sort_by_values_by . (- .))", "(get . \"k1\")"].iter().map(|s| s.to_string()));
+            }
+            for e in exprs {
+                let f = e.split(|c: char| c == ' ' || c == ')').next().unwrap_or("").trim_start_matches('(').to_string();
+                check_expr(ctx, &e, &setup, &format!("{f} on {} of {n}", ["string ending in a 2-byte character", "string starting with a 4-byte character", "ascii string", "list", "object", "list of records with tied keys"][ii]));
+            }
+        }
+    }
+    ctx.level_done("size-thresholds:strings-lists-objects-of-15..1025");
+}
+
 fn run(ctx: &mut Ctx) {
     // oracle self-check: the documentation's own examples
     let s = selfcheck::run();
@@ -397,6 +447,7 @@ fn run(ctx: &mut Ctx) {
     depth1(ctx);
     routes(ctx);
     depth2(ctx);
+    long_inputs(ctx);
     context_grammar(ctx);
     let _ = Tier::Quick;
 }
